@@ -24,7 +24,7 @@ ASSUMPTIONS = ["inputs are conforming tetrahedral meshes whose boundary is a clo
 
 def cases(seed, tier):
     rng = random.Random(seed * 104729 + 3)
-    n = 240 if tier == "quick" else 2500
+    n = 240 if tier == "quick" else 12000
     out = []
     for i in range(n):
         out.append({"gen": "zoo", "seed": rng.randrange(2 ** 31), "max_size": 2 if tier == "quick" else rng.choice([2, 3, 4]),
